@@ -607,9 +607,9 @@ pub fn on_cleaner_marker(wd: &World, id: u32, exit: bool) {
 /// State right after a panic was caught at the API boundary (C07).
 pub fn after_unwind(wd: &World, what: &str) {
     wd.feature(FT_UNWIND, what.bytes().fold(0u64, |h, b| h.wrapping_mul(31).wrapping_add(b as u64)), wd.in_collection.get() as u64);
-    if wd.fault_obj_mark.get() == u32::MAX {
-        wd.fault_obj_mark.set(wd.m.borrow().objs.len() as u32);
-    }
+    // every object that exists when a panic is caught may have been affected by it (also by a second fault: objects
+    // created between two faults are not exempt from the second one)
+    wd.fault_obj_mark.set(wd.m.borrow().objs.len() as u32);
     match state::is_tracing().ok() {
         Some(false) => {}
         _ if !wd.judge_idle_after_unwind.get() => {}
